@@ -28,20 +28,18 @@ META = {
                  "the contract by TLC on all small digraphs; the real functions are run on the same calls (public API and forced "
                  "iteration orders), every call record is validated by TLC against the contract, outcomes are compared with the "
                  "transcription's",
-    "level_text": "Small-scope exhaustive: every digraph with <= 3 nodes (quick; <= 4 thorough, 5 nodes sampled) x toposort and "
-                  "getcycle/isdag with every start-key subset; TLC explores the transcription of _toposort under every iteration "
-                  "order and checks it against the contract; the real functions are run on every such call in several spellings "
-                  "and iteration orders and each call record is decided by TLC. Random digraphs up to 30 keys are sampled.",
+    "level_text": "Small-scope exhaustive: every digraph with <= 3 nodes (4 nodes: a 1/1024 sample in the quick, 1/64 in the "
+                  "thorough tier; 5 nodes: a small sample in thorough) x toposort and getcycle/isdag with every start-key subset; "
+                  "TLC explores the transcription of _toposort under every iteration order, with the priority numbering as written "
+                  "and repaired, and checks it against the contract; the real functions are run on every such call in several "
+                  "spellings and forced iteration orders and each call record is decided by TLC. Random digraphs up to 30 keys are "
+                  "sampled.",
     "level_note": "Trusted: TLC, the graph builder of harness/graphs.py, the reading of the Python code that the transcription "
                   "encodes (its outcome sets are compared with the real outcomes and disagreements are reported in the evidence). "
                   "A CPU-time guard turns non-termination into an observation. Closed graphs only (no dangling references).",
 }
 
 STYLES = ("str", "kstr", "tuple", "int")
-
-
-def fnf(*a):
-    return 0
 
 
 # --------------------------------------------------------------------------- real calls
@@ -169,7 +167,7 @@ def clause_names(texts):
 TRACE_FIELDS = ("id", "fn", "n", "deps", "keys", "res", "order", "c", "b")
 
 
-def judge(ctx, recs, batch=40000):
+def judge(ctx, recs, batch=90000):
     spec, cfg = ctx.model(ctx.spec("graph", "ToposortTrace.tla"), {})
     bad = []
     for lo in range(0, len(recs), batch):
@@ -194,7 +192,7 @@ def report(ctx, recs, bad):
 
 
 # --------------------------------------------------------------------------- the transcription
-IMPL_INVS = ["ContractHolds", "NoValueError", "SeenCompletedDisjoint", "SeenOnStack", "CompletedClosed",
+IMPL_INVS = ["ContractHolds", "NoValueError", "NoDivergence", "SeenCompletedDisjoint", "SeenOnStack", "CompletedClosed",
              "ContractRejects", "ReversedRejected"]
 
 
@@ -203,22 +201,20 @@ def plan_for(ctx):
     full = [{"n": n, "stride": 1, "offset": 0} for n in (1, 2, 3)]
     if ctx.quick:
         return full + [{"n": 4, "stride": 1024, "offset": off(1024)}]
-    return full + [{"n": 4, "stride": 32, "offset": off(32)}, {"n": 5, "stride": 2 ** 17, "offset": off(2 ** 17)}]
+    return full + [{"n": 4, "stride": 64, "offset": off(64)}, {"n": 5, "stride": 2 ** 17, "offset": off(2 ** 17)}]
 
 
-def transcription(ctx, plan, distinct):
-    """TLC on the transcription; returns {call: set(outcomes)} and the number of diverging outcomes."""
-    invs = IMPL_INVS + (["NoDivergence"] if distinct else [])
-    spec, cfg = ctx.model(ctx.spec("graph", "ToposortMC.tla"), {"Plan": plan, "DistinctPrio": distinct}, invariants=invs)
-    cases, _ = ctx.tlc_cases(spec, cfg, label="transcription=>contract (%s numbering)" % ("repaired" if distinct else "as written"),
-                             timeout=3000)
-    model = {}
+def transcription(ctx, plan):
+    """TLC on the transcription, both numberings in one run; returns ({call: set(outcomes)} as written, ... repaired)."""
+    spec, cfg = ctx.model(ctx.spec("graph", "ToposortMC.tla"), {"Plan": plan}, invariants=IMPL_INVS)
+    cases, _ = ctx.tlc_cases(spec, cfg, label="transcription=>contract (numbering as written + repaired)", timeout=3000)
+    models = {"written": {}, "repaired": {}}
     for c in cases:
         key = (c["n"], json.dumps([sorted(d) for d in c["deps"]]), c["fn"], tuple(sorted(c["keys"])))
         o = c["o"]
         ok = ("ok", tuple(o["order"])) if o["res"] == "ok" else ("cycle", tuple(o["c"])) if o["res"] == "cycle" else (o["res"],)
-        model.setdefault(key, set()).add(ok)
-    return model
+        models[c["nb"]].setdefault(key, set()).add(ok)
+    return models["written"], models["repaired"]
 
 
 def call_key(rec):
@@ -265,7 +261,8 @@ def items_from_model(ctx, model, public=2, forced=3):
 def run_items(ctx, items, prefix):
     import dask.core  # noqa: F401 - import before forking
     G.prepare_fork()
-    out = pmap(_work, items, chunk=128)
+    # a call costs ~0.2 ms: below ~10^5 items a fork pool costs more than it saves (measured)
+    out = pmap(_work, items, chunk=128, procs=None if len(items) > 80000 else 1)
     recs = []
     for res in out:
         for r in res:
@@ -302,17 +299,22 @@ def random_items(ctx, count):
 # --------------------------------------------------------------------------- entry points
 def run(ctx):
     plan = plan_for(ctx)
-    written = transcription(ctx, plan, False)
-    repaired = transcription(ctx, plan, True)
+    written, repaired = transcription(ctx, plan)
     if set(written) != set(repaired):
         raise MachineryError("the two transcription variants enumerate different calls")
     ndiv = sum(1 for outs in written.values() if ("diverged",) in outs)
     items = items_from_model(ctx, written, ctx.pick(2, 2), ctx.pick(2, 3))
-    recs = []
-    for lo in range(0, len(items), 30000):
-        part = run_items(ctx, items[lo:lo + 30000], "e%d_" % lo)
+    rand = random_items(ctx, ctx.pick(1500, 20000))
+    recs, first = [], None
+    step = 30000
+    for lo in range(0, len(items), step):
+        part = run_items(ctx, items[lo:lo + step], "e%d_" % lo)
+        nmodel = len(part)
+        if lo + step >= len(items):                     # the random digraphs ride along with the last batch
+            part += run_items(ctx, rand, "r")
+            first = part[nmodel:nmodel + 2]
         report(ctx, part, judge(ctx, part))
-        recs += [{k: r[k] for k in ("fn", "n", "deps", "keys", "res", "order", "c", "b") if k in r} for r in part]
+        recs += [{k: r[k] for k in ("fn", "n", "deps", "keys", "res", "order", "c", "b") if k in r} for r in part[:nmodel]]
     in_w, out_w, ex_w = agreement(written, recs)
     in_r, out_r, ex_r = agreement(repaired, recs)
     ctx.extra["transcription"] = {
@@ -325,9 +327,7 @@ def run(ctx):
                          "neither (transcription drift - reported, not judged)"),
     }
     del recs
-    part = run_items(ctx, random_items(ctx, ctx.pick(1500, 40000)), "r")
-    report(ctx, part, judge(ctx, part))
-    for r in part[:2]:
+    for r in first or []:
         ctx.sample({k: r[k] for k in ("fn", "n", "deps", "keys", "res", "order", "c", "b") if k in r})
     ctx.sample({"transcription_call": list(sorted(written)[len(written) // 2]),
                 "outcomes": sorted(map(list, written[sorted(written)[len(written) // 2]]))[:5]})
@@ -357,7 +357,7 @@ def selftest(ctx):
     from ..srcmut import mutant
     ok = True
     plan = [{"n": n, "stride": 1, "offset": 0} for n in (1, 2, 3)]
-    model = transcription(ctx, plan, True)
+    _, model = transcription(ctx, plan)
     items = items_from_model(ctx, model, 2, 1)
     mutants = [
         ("a dependency that is already on the DFS path is skipped (dropped cycle branch)", "_toposort",
